@@ -486,6 +486,8 @@ class Executor:
             return VInt(I(cp), "char")
         if t.startswith('"') or t.startswith('b"'):
             return VOpaque(("str", t))
+        if "SizedTypeProperties>::" in t:
+            return VOpaque(("addr", t))
         # named constant
         name = strip_generics(t)
         last = name.split("::")[-1]
@@ -527,6 +529,8 @@ class Executor:
         for idx, p in enumerate(place.proj):
             if p[0] == "deref":
                 r = self._read_raw(st, cur_fid, local, proj)
+                if isinstance(r, VOpaque) and isinstance(r.what, tuple) and r.what[0] == "rawbox":
+                    return ("rawbox", r.what[1])
                 if not isinstance(r, VRef):
                     raise Unsupported("deref of non-reference %r in %s" % (r, self.cur_fn))
                 if r.kind == "val":
@@ -560,6 +564,8 @@ class Executor:
     def project(self, st, v, proj):
         for i, p in enumerate(proj):
             k = p[0]
+            if isinstance(v, VOpaque) and isinstance(v.what, tuple) and v.what[0] in ("rawbox", "addr"):
+                return v
             if k == "field":
                 if isinstance(v, VStruct):
                     if p[1] >= len(v.f):
@@ -620,6 +626,10 @@ class Executor:
 
     def write_place(self, st, fid, place, val):
         r = self._follow(st, fid, place)
+        if r[0] == "rawbox":
+            # vec![..] idiom: the wrappers (MaybeUninit/ManuallyDrop/MaybeDangling) are transparent
+            st.frames.setdefault("heap", {})[r[1]] = val
+            return
         if r[0] == "val":
             raise Unsupported("write through a reference to a value snapshot")
         _, f2, local, proj = r
@@ -729,6 +739,9 @@ class Executor:
             if t is None:
                 raise Unsupported("bool binop " + op)
             return VBool(simp(t()))
+        if isinstance(a, VOpaque) or isinstance(b, VOpaque):
+            if any(isinstance(x, VOpaque) and isinstance(x.what, tuple) and x.what[0] in ("rawbox", "addr") for x in (a, b)):
+                return VOpaque(("addr", "pointer arithmetic of the vec![..] idiom"))
         if isinstance(a, VEnum) and isinstance(b, VEnum) and op in ("Eq", "Ne"):
             # fieldless enums compared through discriminant casts only; not expected here
             raise Unsupported("enum comparison by binop")
@@ -788,6 +801,8 @@ class Executor:
                 return VInt(v.t, ty)
             return VInt(self.wrap(v.t, ty), ty)
         if kind.startswith("PointerCoercion") or kind in ("Transmute", "PtrToPtr"):
+            if isinstance(v, VOpaque) and isinstance(v.what, tuple) and v.what[0] in ("rawbox", "addr"):
+                return v
             if kind == "Transmute":
                 raise Unsupported("transmute")
             return v
@@ -804,6 +819,8 @@ class Executor:
         if k == "unop":
             v = self.operand(st, fid, rv.a[1], fn)
             op = rv.a[0]
+            if isinstance(v, VOpaque) and isinstance(v.what, tuple) and v.what[0] in ("rawbox", "addr"):
+                return v
             if op == "Not":
                 if isinstance(v, VBool):
                     return VBool(simp(z3.Not(v.t)))
@@ -1009,6 +1026,12 @@ class Executor:
                         go(t.a["otherwise"], s.fork(simp(z3.And(s.guard, c))))
             elif tk == "assert":
                 v = self.operand(s, fid, t.a["cond"], fn)
+                if isinstance(v, VOpaque) and isinstance(v.what, tuple) and v.what[0] == "addr" and \
+                        ("misaligned pointer dereference" in t.a["msg"] or "null pointer dereference" in t.a["msg"]):
+                    # allocator contract: a fresh Box pointer is aligned and non-null (vec![..] idiom)
+                    self.used_models.add("allocator pointer alignment/non-null checks of vec![..] skipped")
+                    go(t.a["target"], s)
+                    continue
                 c = z3.Not(v.t) if t.a["neg"] else v.t
                 self.oblig("panic", where, "assert: " + t.a["msg"], z3.And(s.guard, z3.Not(c)))
                 s.guard = simp(z3.And(s.guard, c))
@@ -1132,7 +1155,9 @@ def _term_operands(t):
 
 def list_get(lst, idx):
     if z3.is_int_value(idx):
-        return lst.items[idx.as_long()]
+        k = idx.as_long()
+        # out-of-range reads only happen on dead paths (guarded by the caller's bounds obligation)
+        return lst.items[k] if 0 <= k < len(lst.items) else lst.items[-1]
     out = lst.items[-1]
     for i in range(len(lst.items) - 2, -1, -1):
         out = merge(simp(idx == i), lst.items[i], out)
